@@ -48,6 +48,169 @@ Example C18_ex_clean_run :
             /\ census (init c18_cfg) = 7.
 Proof. eexists. split; [vm_compute; reflexivity|]. split; vm_compute; reflexivity. Qed.
 
+(* ====================================================================================================
+   C18 - composite leg (appended; model coq/model/Composite.v, proofs coq/proofs/CompositeCensus.v).
+   The goroutines the composite creates on its own behalf: one per child per boot (alive until
+   startRunnable has returned) and one per child per stopAllRunnables round (alive until that
+   child's Stop() has returned).  [CompositeMon.census] counts both; the harness compares it with the
+   real census (goroutines whose creator is a function of runnables/composite) at every quiescent
+   snapshot.  Code modelled: /repo f0fcb2b (fix_c09, fix_stale).  All schedules, any pool, any reload
+   / restart history, failed boots and failed reloads included.
+   ==================================================================================================== *)
+From Coq Require Import NArith.
+From GS Require Import Errs Composite CompositeMon CompositeBase CompositeC10 CompositeC09 CompositeLocks
+     CompositeProgress CompositeExact CompositeCensus.
+
+(* after a clean termination - Run() has returned, no Reload() is inside its critical section, and no
+   boot happened after the last completed stopAllRunnables (gen_cancelled = gen) - the census is 0 *)
+Theorem C18_comp_clean : forall P s,
+  fix_c09 P = true -> fix_stale P = true -> CompositeBase.reach P s ->
+  returned (runt s) = true -> reload_mu s = None -> gen_cancelled s = gen s ->
+  CompositeMon.census s = 0.
+Proof. exact census_zero_after_clean_termination. Qed.
+
+(* in every state in which Run() has returned - also when it returned without stopAllRunnables (the
+   transition to Running failed after a boot) or a Reload() raced with Stop() and booted afterwards -
+   each child goroutine still alive has an enabled step of its own (its context is cancelled): none is
+   left behind blocked *)
+Theorem C18_comp_no_blocked_leftover : forall P s i k,
+  good_children P -> CompositeBase.reach P s -> returned (runt s) = true ->
+  nth_error (kids s) i = Some k -> kid_alive k = true ->
+  exists l s', Composite.step P s l = Some s' /\
+    (l = LKRun i (k_child k) \/ l = LKExit i (k_child k) None \/ l = LKSend i).
+Proof. exact live_child_goroutine_can_step. Qed.
+
+(* no accumulation while running: the live child goroutines all belong to the current boot
+   generation - their number is bounded by the size of the configuration launched by the last boot,
+   however many reloads and restarts happened before ... *)
+Theorem C18_comp_children_bounded : forall P s,
+  fix_c09 P = true -> fix_stale P = true -> CompositeBase.reach P s ->
+  kid_census s <= length (cur_kids s).
+Proof. exact kid_census_bounded. Qed.
+
+(* ... and Stop-worker goroutines exist only inside a stopAllRunnables round in progress (rounds
+   are serialised by runnablesMu): whenever neither Run() nor a Reload() is waiting in
+   stopAllRunnables there is none *)
+Theorem C18_comp_workers_scoped : forall P s,
+  CompositeBase.reach P s -> runt s <> TStopWait ->
+  count_r (fun p => rpc_is p RStopWait) (reloaders s) = 0 -> worker_census s = 0.
+Proof. exact no_live_worker_outside_rounds. Qed.
+
+Print Assumptions C18_comp_clean.
+Print Assumptions C18_comp_no_blocked_leftover.
+Print Assumptions C18_comp_children_bounded.
+Print Assumptions C18_comp_workers_scoped.
+
+(* non-vacuity: boot, restart reload, Stop(): the census is 0 at the end and was 2 in between *)
+Definition c18_comp_params : params :=
+  mkParams [mkSpec 0%N UntilRunDone OnSignal RWC; mkSpec 1%N NonBlocking OnSignal RWC] true true true true.
+Definition c18_comp_sched : list Composite.label :=
+  [LRunCall; LRunBegin; LBootLock ORun; LCb ORun (CbSome [(0, 0)]%N); LBootLaunch ORun; LToRunning;
+   LKRun 0 0%N;
+   LReloadCall 0; LRlLock 0; LCb (ORel 0) (CbSome [(0, 1); (1, 1)]%N);
+   LStopBegin (ORel 0); LWCall 0 0%N; LKExit 0 0%N None; LWUnblock 0; LWRet 0 0%N;
+   LStopCancel (ORel 0); LStopJoin (ORel 0); LRlSetCfg 0; LBootLock (ORel 0); LBootLaunch (ORel 0);
+   LRlFinish 0; LRlRet 0; LKRun 1 0%N; LKRun 2 1%N;
+   LStopApi 0; LSSignal 0; LSelStop; LTransIf; LTearLock; LStopBegin ORun;
+   LWCall 1 1%N; LWCall 2 0%N; LWRet 1 1%N; LKExit 1 0%N None; LKExit 2 1%N (Some Canceled);
+   LWUnblock 2; LWRet 2 0%N; LStopCancel ORun; LStopJoin ORun; LToStopped; LRunExit; LRunRet None; LSRet 0].
+Example C18_comp_ex_clean_run : exists s s1,
+  LTS.run (Composite.step c18_comp_params) Composite.init c18_comp_sched = Some s /\
+  CompositeMon.census s = 0 /\ returned (runt s) = true /\ reload_mu s = None /\ gen_cancelled s = gen s /\
+  LTS.run (Composite.step c18_comp_params) Composite.init (firstn 24 c18_comp_sched) = Some s1 /\
+  CompositeMon.census s1 = 2.
+Proof. eexists. eexists. split; [vm_compute; reflexivity|]. vm_compute. repeat split. Qed.
+
+(* ======================================================================================================
+   C18 - HTTP-server leg (appended; model coq/model/HttpServer.v, proofs coq/proofs/HttpCensus.v).
+   The goroutines the HTTP runner creates on its own behalf are the serve goroutines started by boot()
+   ("go func() { server.ListenAndServe() ... }()"), one per server ever created - by Run's boot and by every
+   Reload that restarts; Run, Reload and stopServer start nothing else.  [HttpServer.census] counts the ones
+   that have not finished; the harness compares it with the real census (goroutines whose creator is a
+   function of runnables/httpserver, read from runtime.Stack) at every quiescent point of the reload histories
+   and after Run() returned.  Every schedule: any number of reloads / restarts / failed boots, Stop and cancel
+   at any time (before Run, inside the boot's probe window, during a reload), every callback and Shutdown
+   result.  Hypothesis as for C12: no foreign binder (the bind-failure path is covered by the check only).
+   (Names are qualified: the composite model above uses the same constructor names.) *)
+From Coq Require Import ZArith.
+From GS Require HttpCfg HttpServer HttpInvStep2 HttpProps HttpCensus.
+
+(* zero once Run() has returned and the serve goroutines have run as far as they can - whether Run() returned
+   from a clean stop, from a FAILED boot (rejected configuration, readiness probe cut short) or from a boot
+   whose context was cancelled before the first probe tick *)
+Theorem C18_http_clean : forall sl validated mux_ok c0 ls s,
+  HttpInvStep2.no_foreign ls ->
+  LTS.run (HttpServer.step sl validated mux_ok) (HttpServer.init c0) ls = Some s ->
+  HttpServer.crashed s = false ->
+  (exists r, HttpServer.rpc s = HttpServer.RRet r) \/ HttpServer.rpc s = HttpServer.RDone ->
+  (forall sid, HttpServer.step sl validated mux_ok s (HttpServer.LLasClosed sid) = None) ->
+  HttpServer.census s = 0.
+Proof. exact HttpCensus.http_census_clean. Qed.
+
+(* ... and nothing is left blocked: a serve goroutine still alive after Run() returned can always exit
+   (ListenAndServe returns ErrServerClosed: every server has been shut down) *)
+Theorem C18_http_no_blocked_leftover : forall sl validated mux_ok c0 ls s sid sv,
+  HttpInvStep2.no_foreign ls ->
+  LTS.run (HttpServer.step sl validated mux_ok) (HttpServer.init c0) ls = Some s ->
+  HttpServer.crashed s = false ->
+  (exists r, HttpServer.rpc s = HttpServer.RRet r) \/ HttpServer.rpc s = HttpServer.RDone ->
+  nth_error (HttpServer.servers s) sid = Some sv -> HttpServer.serve_alive sv = true ->
+  HttpServer.step sl validated mux_ok s (HttpServer.LLasClosed sid) <> None.
+Proof. exact HttpCensus.http_no_blocked_leftover. Qed.
+
+(* while running: at most ONE goroutine at every point where the serve goroutines have settled, whatever the
+   number of reloads, restarts and failed boots - they do not accumulate *)
+Theorem C18_http_bounded : forall sl validated mux_ok c0 ls s,
+  HttpInvStep2.no_foreign ls ->
+  LTS.run (HttpServer.step sl validated mux_ok) (HttpServer.init c0) ls = Some s ->
+  HttpServer.crashed s = false ->
+  (forall sid, HttpServer.step sl validated mux_ok s (HttpServer.LLasClosed sid) = None) ->
+  HttpServer.census s <= 1.
+Proof. exact HttpCensus.http_census_bounded. Qed.
+
+(* the census observation of the harness is the model's *)
+Theorem C18_http_observable : forall sl validated mux_ok c0 ls s,
+  LTS.run (HttpServer.step sl validated mux_ok) (HttpServer.init c0) ls = Some s ->
+  HttpServer.crashed s = false ->
+  HttpServer.step sl validated mux_ok s (HttpServer.LObsCensus (HttpServer.census s)) = Some s.
+Proof. exact HttpCensus.http_census_observable. Qed.
+
+Print Assumptions C18_http_clean.
+Print Assumptions C18_http_no_blocked_leftover.
+Print Assumptions C18_http_bounded.
+Print Assumptions C18_http_observable.
+
+(* non-vacuity: (1) boot, a restarting reload, Stop: 1 goroutine while running, 2 for an instant during the
+   restart, 0 at the end; (2) the context is cancelled before Run: the boot fails, Run returns the boot error,
+   the serve goroutine exits: 0 *)
+Definition c18_http_cfg (a : N) : HttpCfg.config :=
+  HttpCfg.Build_config [a] 5%Z 1%Z 2%Z 3%Z [HttpCfg.Build_route [97%N] [47%N; 120%N]].
+Definition c18_http_sched : list HttpServer.label :=
+  [HttpServer.LRunCall; HttpServer.LRunStart; HttpServer.LRunLock; HttpServer.LBootCreate 0 (c18_http_cfg 65%N);
+   HttpServer.LBindOk 0; HttpServer.LProbeOk; HttpServer.LRunFinishBoot; HttpServer.LObsCensus 1;
+   HttpServer.LReloadCall 0; HttpServer.LReloadBegin 0; HttpServer.LFetch (HttpServer.CbCfg (c18_http_cfg 66%N));
+   HttpServer.LStopCallS 0; HttpServer.LShutdownRet 0 HttpServer.SOk; HttpServer.LBootCreate 1 (c18_http_cfg 66%N);
+   HttpServer.LObsCensus 2; HttpServer.LLasClosed 0; HttpServer.LBindOk 1; HttpServer.LProbeOk; HttpServer.LFinish;
+   HttpServer.LReloadRet 0; HttpServer.LObsCensus 1;
+   HttpServer.LStopCall 0; HttpServer.LRunWake; HttpServer.LRunLockStop; HttpServer.LStopCallS 1;
+   HttpServer.LShutdownRet 1 HttpServer.SOk; HttpServer.LRunRet HttpServer.ROk; HttpServer.LStopRet 0;
+   HttpServer.LLasClosed 1; HttpServer.LObsCensus 0].
+Example C18_http_ex_restart_and_stop : exists s,
+  LTS.run (HttpServer.step true true (fun _ => true)) (HttpServer.init (c18_http_cfg 65%N)) c18_http_sched = Some s /\
+  HttpServer.census s = 0 /\ HttpServer.rpc s = HttpServer.RDone /\ length (HttpServer.servers s) = 2.
+Proof. eexists. split; [vm_compute; reflexivity|]. repeat split. Qed.
+Definition c18_http_cancelled : list HttpServer.label :=
+  [HttpServer.LCancel; HttpServer.LRunCall; HttpServer.LRunStart; HttpServer.LRunLock;
+   HttpServer.LBootCreate 0 (c18_http_cfg 65%N); HttpServer.LProbeCancelled; HttpServer.LCleanupCall 0;
+   HttpServer.LObsCensus 1; HttpServer.LShutdownRet 0 HttpServer.SOk; HttpServer.LRunRet HttpServer.RBootErr;
+   HttpServer.LLasClosed 0; HttpServer.LObsCensus 0].
+Example C18_http_ex_cancelled_boot : exists s,
+  LTS.run (HttpServer.step true true (fun _ => true)) (HttpServer.init (c18_http_cfg 65%N)) c18_http_cancelled = Some s /\
+  HttpServer.census s = 0 /\ HttpServer.rpc s = HttpServer.RDone /\ HttpServer.fsm_st s = HttpServer.FError.
+Proof. eexists. split; [vm_compute; reflexivity|]. repeat split. Qed.
+Example C18_http_ex_no_foreign : HttpInvStep2.no_foreign c18_http_sched /\ HttpInvStep2.no_foreign c18_http_cancelled.
+Proof. split; repeat constructor. Qed.
+
 (* ====================================================================================== *)
 (* C18, HTTP cluster leg (runnables/httpcluster).  Models: ClusterLTS.v (the Run loop, C16) and
    ClusterGo.v (the goroutine census on top of it: [g_run] = server instances whose
